@@ -1,6 +1,7 @@
 (* C17 — property theorems (statements only; proofs live in Proofs.v). *)
 From Coq Require Import ZArith QArith List Bool.
-Require Import QV.C17.Model QV.C17.Spec QV.C17.Proofs.
+Require Import QV.C17.Model QV.C17.Spec QV.C17.Proofs QV.C17.SimDefs QV.C17.ProofsSim4 QV.C17.ProofsSim6 QV.C17.ProofsBuild
+               QV.C17.ProofsStair.
 Import ListNotations.
 
 (* the binary-fuel VM used in the correspondence check is the unary-fuel VM of the statements below *)
@@ -47,11 +48,73 @@ Proof.
 Qed.
 
 (* ---------------------------------------------------------------------------------------------------------------- *)
-(* The staircase clause.  Its full statement `C17_staircase_statement` (Spec.v: under the two guards, every history the
-   pipeline produces is the staircase of the source, with the same total duration) is OPEN: it is tested by the
-   correspondence check on every generated case, not proved.  Proved here: the guards are necessary -- the faithful
-   model of the unchanged translator violates the unguarded statement (witnesses = the known findings) -- and the
-   guarded hypotheses are satisfiable by a non-trivial nest that plays correctly. *)
+(* The staircase clause: PROVED (round 2) for every source -- holds with plain / int / affine voltages on any number of
+   channels, sequences, iterations with any start/stop/step, repetitions of any count, nested to any depth -- under four
+   executable hypotheses:
+     src_wf                             one voltage per channel in every hold, steps <> 0
+     guard_C17_zero_factor_depth 0      no index-dependent voltage whose coefficients of the ENCLOSING loops are all zero
+     guard_C17_key_collision            no two different factor tuples of one channel share a DepKey (rounding to 1e-9 /
+                                        stripped trailing zeros); this also excludes dep-key-shared-across-depths
+     guard_C17_repetition_entry_state   the ghost flag: every repetition emitted as a direct loop re-translates to the
+                                        same commands from the state its body leaves behind
+   Whenever the pipeline build -> translate -> VM returns a history, it is the staircase of the source (all start times
+   equal, all voltages equal as rationals, no NaN) and the total durations agree.  No fuel assumption: any fuel for which
+   the VM halts gives this history. *)
+Theorem C17_staircase : forall channels s fuel h t,
+  src_wf channels s = true -> guard_C17_zero_factor_depth 0 s = true -> guard_C17_key_collision s = true ->
+  guard_C17_repetition_entry_state s = true ->
+  pipeline fuel channels s = Ok (h, t) ->
+  plays h (fst (staircase s)) = true /\ Qeq_bool t (snd (staircase s)) = true.
+Proof. exact staircase_full. Qed.
+Print Assumptions C17_staircase.
+
+Example C17_staircase_nonvacuous :
+  src_wf 2 wit_good = true /\ guard_C17_zero_factor_depth 0 wit_good = true /\ guard_C17_key_collision wit_good = true /\
+  guard_C17_repetition_entry_state wit_good = true /\ exists h t, pipeline 1000 2 wit_good = Ok (h, t) /\ length h = 21%nat.
+Proof. exact staircase_full_nonvacuous. Qed.
+
+(* Without the ghost flag: sources whose built program contains no repetition node (iterations, sequences, holds; any
+   depth).  guard_C17_built_ok false = executable check on the builder output (structure, key <> (), key collisions). *)
+Theorem C17_staircase_partial : forall channels s fuel h t,
+  guard_C17_built_ok false channels s = true ->
+  pipeline fuel channels s = Ok (h, t) ->
+  plays h (fst (staircase s)) = true /\ Qeq_bool t (snd (staircase s)) = true.
+Proof. exact staircase_norep. Qed.
+Print Assumptions C17_staircase_partial.
+
+(* the two halves of the proof, usable on their own *)
+(* (a) translator + VM: the run of the translated program is the denotation of the builder's node tree over loop indices
+       counted from 0 (simulation invariant: register (ch, key) holds base + sum factors * current indices) *)
+Theorem C17_translated_program_plays : forall reps channels prog cs fuel h t,
+  prog_ok reps channels prog = true -> (reps = true -> rep_stable prog = true) ->
+  translate prog = Ok cs -> run_vm_n fuel channels cs = Ok (h, t) ->
+  Forall2 hrel h (fst (nplay_list prog [] 0%Q)) /\ t = snd (nplay_list prog [] 0%Q).
+Proof. exact translated_program_plays. Qed.
+Print Assumptions C17_translated_program_plays.
+
+(* (b) builder: the node tree played at indices I is the source unrolled at start + step * I (zero-duration holds,
+       empty ranges, counts <= 0 and empty bodies dropped on both sides) *)
+Theorem C17_build_is_unroll : forall s rs nodes I t,
+  build s rs = Ok nodes -> length I = length rs -> prel (nplay_list nodes I t) (unroll s (env_of rs I) t).
+Proof. exact build_unroll. Qed.
+Print Assumptions C17_build_is_unroll.
+
+(* The statement of round 1 (Spec.v C17_staircase_statement: only guard_C17_zero_factor and the ghost flag) is FALSE of
+   the model: (1) two slopes on one channel that differ by less than the increment resolution share one register;
+   (2) an affine voltage whose only non-zero coefficient belongs to no enclosing loop passes guard_C17_zero_factor but
+   is built with all-zero factors.  Each witness violates exactly the corrected guard named in the theorem. *)
+Theorem C17_staircase_statement_refuted_resolution :
+  ~ C17_staircase_statement /\ guard_C17_key_collision wit_resolution = false.
+Proof. exact statement_refuted_resolution. Qed.
+Print Assumptions C17_staircase_statement_refuted_resolution.
+
+Theorem C17_staircase_statement_refuted_extra_coefficient :
+  ~ C17_staircase_statement /\ guard_C17_zero_factor_depth 0 wit_extra_coef = false.
+Proof. exact statement_refuted_extra_coef. Qed.
+Print Assumptions C17_staircase_statement_refuted_extra_coefficient.
+
+(* The guards are necessary: the faithful model of the unchanged translator violates the unguarded statement (witnesses =
+   the known findings). *)
 
 (* repetition-entry-state, plain voltage elided at the loop entry: hold(1.5); 3 x (hold(1.5); hold(2.5)) *)
 Theorem C17_staircase_refuted_repetition : ~ C17_staircase_unguarded true false.
